@@ -7,12 +7,11 @@ CONSTANTS
  MaxChunks = 4
  First = {}
  DevF3 = FALSE
- DevMolsPerFile = TRUE
+ DevMolsPerFile = FALSE
  DevDirKeep = FALSE
  DevElseKeep = FALSE
 CHECK_DEADLOCK FALSE
-INVARIANT ExportInv
-INVARIANT SameOneFile
+INVARIANT SameX
 INVARIANT NoStruct
 INVARIANT DoneEmpty
 INVARIANT DomainOK
